@@ -340,6 +340,7 @@ _FN_ATTRS = {
     "addmul": [({}, "py")],
     "softax": [({"axis": 0}, "py"), ({"axis": 0}, "obj")],
     "cumax": [({}, "py"), ({"axis": 1}, "obj"), ({"keep": 1}, "obj"), ({"axis": 1, "keep": 1}, "py")],
+    "scale2": [({}, "py")],
 }
 
 
